@@ -596,12 +596,16 @@ Definition same_endpoint (a b : entry) : bool :=
   | _, _, _, _, _, _, _, _ => false
   end.
 
+(* a device keeps its listening switch as a boolean: not stated = off (repaired: fixes/C20-slave-listen-enabled-boolean.diff; the
+   unrepaired Slave kept None and GET /devices answered null, which PUT /devices refuses) *)
+Definition stated_listen (v : jv) : jv := match v with JNull => JBool false | _ => v end.
+
 (* what to_json answers for a device added disabled from the entry e *)
 Definition slave_json (e : entry) : entry :=
   [("enabled", JBool false); ("name", get "name" e); ("scheme", get "scheme" e); ("host", get "host" e);
    ("port", get "port" e); ("path", get "path" e); ("admin_password_hash", get "admin_password_hash" e);
    ("poll_interval", match lookup "poll_interval" e with Some v => v | None => JNum 0 end);
-   ("listen_enabled", get "listen_enabled" e);
+   ("listen_enabled", stated_listen (get "listen_enabled" e));
    ("last_sync", match lookup "last_sync" e with Some v => v | None => JNum (-4) end);
    ("online", JBool false);
    ("provisioning", match lookup "provisioning" e with Some (JList l) => JList l | _ => JList [] end);
@@ -643,7 +647,7 @@ Definition live_json (e : entry) (a : jv) : entry :=
   let le := get "listen_enabled" e in
   let pi := match lookup "poll_interval" e with Some v => v | None => JNum 0 end in
   let unspecified := is_null le && match pi with JNum 0 => true | _ => false end in
-  let le' := if unspecified && has_listen_flag a then JBool true else le in
+  let le' := if unspecified && has_listen_flag a then JBool true else stated_listen le in
   let pi' := if unspecified && negb (has_listen_flag a) then JNum default_poll_interval else pi in
   [("enabled", JBool true); ("name", get "name" e); ("scheme", get "scheme" e); ("host", get "host" e);
    ("port", get "port" e); ("path", get "path" e); ("admin_password_hash", get "admin_password_hash" e);
